@@ -20,6 +20,8 @@ PROP = {
              "horizontal segments, chords crossing a closed edge at a shallow angle; 2-point paths; repeated vertices) accepted by the exact "
              "filter 'union of all paths in general position' (3.001+M*2^-50 separation; in 25% of the cases the requirements that involve "
              "only open edges are waived, tag oo_relaxed); cycled over 4 clip types x 4 fill rules x PreserveCollinear x ReverseSolution; "
+             "the inputs reach the clipper by one of six loading routes (direct in two orders; open paths first and the closed paths through a "
+             "ReuseableDataContainer64 without open paths; two containers; closed container first; one container with everything); "
              "1 case in 29 is a robustness case with empty / 1-point / all-duplicate open paths (only 'Execute succeeds' is claimed). "
              "A case is non-trivial iff at least one open segment properly crosses a closed edge that bounds the deciding region "
              "(clip edges; for Union subject and clip edges); distinct by hash of inputs+configuration"),
